@@ -6,6 +6,7 @@ import (
 	"fmt"
 	"io"
 	"net/http"
+	"time"
 
 	"verif/harness/lib"
 
@@ -37,6 +38,22 @@ type op struct {
 	caches bool // a hit leaves the entry in the local cache
 	deps   bool // reads an ActionResult that references the object (dependency check)
 	run    func(ctx context.Context, rg *rig, s *lib.Server, o *object) outcome
+}
+
+// opWatchdog bounds one client operation; its expiry is never a verdict.
+const opWatchdog = 180 * time.Second
+
+// runOp runs one operation under its own watchdog. When the watchdog fires
+// the outcome class is "watchdog" (recorded as inconclusive, judged by nobody).
+func (rg *rig) runOp(p *op, s *lib.Server, o *object) outcome {
+	ctx, cancel := context.WithTimeout(context.Background(), opWatchdog)
+	defer cancel()
+	out := p.run(ctx, rg, s, o)
+	if ctx.Err() != nil {
+		rg.w.r.Inconclusive(fmt.Sprintf("%s: %s did not finish within the %v watchdog", rg.name, p.name, opWatchdog))
+		return outcome{class: "watchdog", size: -1, detail: "harness watchdog expired: " + out.detail}
+	}
+	return out
 }
 
 func errOutcome(err error) outcome {
